@@ -138,6 +138,29 @@ theorem begin_blocks_while_held (m m' : Mu) (tx : Tx) (h : beginTx m true = some
   have hl := hok hh
   simp [beginTx, hl]
 
+/-- `Begin(update)` on a store that has been closed: the lock is taken, the closed flag is seen, the lock is given back
+    before `ErrDBClosed` is returned (no transaction exists that could release it later) -/
+def beginOnClosed (m : Mu) (update : Bool) : Option Mu :=
+  if update then (if m.locked then none else some ({ m with locked := true } : Mu).unlock) else some m
+
+/-- … so a refused `Begin` leaves the mutex free: the next write is refused as well, it does not wait forever -/
+theorem beginOnClosed_leaves_lock_free (m m' : Mu) (u : Bool) (h : beginOnClosed m u = some m') :
+    m'.locked = m.locked ∧ m'.fault = m.fault ∧ beginOnClosed m' u ≠ none := by
+  unfold beginOnClosed at h
+  cases u with
+  | false =>
+    simp only [Bool.false_eq_true, if_false, Option.some.injEq] at h
+    subst h
+    simp [beginOnClosed]
+  | true =>
+    simp only [if_true] at h
+    cases hl : m.locked with
+    | true => simp [hl] at h
+    | false =>
+      simp only [hl, Bool.false_eq_true, if_false, Option.some.injEq, Mu.unlock, if_true] at h
+      subst h
+      simp [beginOnClosed, Mu.unlock]
+
 /-- the premises are satisfiable: the path every successful public write takes -/
 example : (endAll ⟨true, 0, false⟩ ⟨true, true⟩ [.commit, .rollback]).1 = ⟨false, 1, false⟩ := by decide
 
